@@ -189,6 +189,30 @@ CLAIMED = {
             TB + DAEMON_NOTE + "The differential family keeps faulty peers to subscribers/bystanders (a faulty requester or owner legitimately changes "
             "the history; the faulty-owner case is the directed F30 family judged by the C03 monitor).",
             "Lean 4 proof over executable model + differential correspondence with the compiled daemon", "DESIGN.md §6 C11, docs/C11-proofs.md"),
+    "C07": ("proof",
+            "21 Lean theorems: on the daemon model no_double_destroy, no_double_arm, destroyed_were_created, held_timers_live, timer_ledger (the "
+            "timers created and not yet destroyed over the history are exactly those of the stored routing entries), baseline_when_no_peers, "
+            "disconnect_all_reaches_baseline, term_releases_all, objects_owned_once, close_releases_exactly; on a model of alloc.c (size_t arithmetic, "
+            "cap test as written, OS-failure oracle) cap_respected, accounting_exact, refusal_iff, free_returns_to_baseline. " + DAEMON_TIE +
+            "Monitor: at every snapshot with all client connections gone and after SIGTERM the accounted heap, peer count, simulated descriptor table "
+            "and armed timers must be at baseline and run_io must return 0; the simulated kernel reports every double close, operation on a closed or "
+            "foreign descriptor and epoll_ctl on a non-epoll descriptor. Allocator tie: real alloc.c with intercepted malloc/calloc on random scripts "
+            "around a small cap.",
+            TB + DAEMON_NOTE + "Hypotheses of timer_ledger: '_'-free address tokens, fewer than 2^32 requests per run (a machine-checked counterexample "
+            "shows they are needed). LeakSanitizer and the accounted-heap delta measure the real code; the ledger theorems are about the model.",
+            "Lean 4 proof over executable models + differential correspondence and resource measurement on the compiled daemon", "DESIGN.md §6 C07, docs/C07-proofs.md"),
+    "C15": ("proof",
+            "PARTIAL: the C unwinding under allocation failure is ENUMERATED on the real daemon; the proof side carries its logic. 19 Lean theorems "
+            "over the acquisition ladders of the creation paths transcribed as data from the C (add of state/method, routed set/call incl. "
+            "remove_routing_information on the late failures, fetch creation for all shapes up to 3 matchers x 4 operands and 0-12 single-operand "
+            "matchers, fetcher-table growth, raw / HTTP / WebSocket connection set-up): unwind_releases_all (for EVERY failure point the held set "
+            "equals the held set before, nothing released twice), at_most_one_response, table_not_left_dangling; the audit rejects the pre-repair "
+            "routed-request ladder. Tie: single-fault enumeration — every allocation of every corpus scenario (all request types, teardown paths, "
+            "authentication, regressions) fails in turn (every index in thorough, every third in quick) plus multi-fault runs, judged by "
+            "ASan/UBSan/LSan, accounted heap, peers, descriptors, two liveness probes and at most one response per request.",
+            TB + "The ladder transcriptions are by hand (per-step C line tables in docs/C15-proofs.md); one C allocation does not map one-to-one to a "
+            "ladder step (cJSON nodes). Open known finding F60 (unchecked cJSON_AddItemToObject: a failing key copy leaks the item) is printed on every run.",
+            "Lean 4 proof of unwinding ladders + single-fault enumeration on the compiled daemon (stated as partial)", "DESIGN.md §6 C15, docs/C15-proofs.md"),
 }
 
 NOT_YET = "machinery under construction in this round; not yet claimed"
